@@ -53,6 +53,7 @@ void vp_c16_sig_element(QDomElement *out);        // element of the last element
 void vp_c16_set_class(const QObject *o, const QMetaObject *mo);
 // password checker log (filled by the harness' FakeChecker)
 bool vp_c16_false();
+void vp_c16_bytes_exact(QByteArray *out, unsigned n, bool ascii);   // exactly n symbolic bytes
 void vp_c16_concat(QString *out, const QString *a, unsigned short ch, const QString *b);   // out = a + ch + b
 unsigned vp_c16_nfeatures();                    // calls of the (cut) QXmppIncomingClient::sendStreamFeatures
 unsigned vp_c16_orc_count(); void vp_c16_orc_input(unsigned i, QByteArray *out);   // crypto oracle log
